@@ -62,6 +62,9 @@ BAD = {
     'positiveInteger': ['0', '-1', 'one', '1_0', '\u0661'],
     'PositiveInteger': ['0', '-1', 'one', '1_0', '\u0661'],
     'unsignedShort': ['-1', '65536', 'one', '6_5', '\u0661'],
+    'unsignedByte': ['-1', '256', 'three', '2_5'],
+    'unsignedInt': ['-1', '4294967296', 'big', '1_0'],
+    'unsignedLong': ['-1', '18446744073709551616', 'soon', '1_0'],
     'duration': ['1 hour', 'P', 'PT', 'PT5', 'PT1,5S', 'P1S', 'P-1D', 'PT1H1D'],
 }
 
@@ -76,6 +79,7 @@ GOOD_ALT = {
     'positiveInteger': ['12345678901234567890'],
     'PositiveInteger': ['12345678901234567890'],
     'unsignedShort': ['0', '65535'],
+    'unsignedByte': ['0', '255'], 'unsignedInt': ['0', '4294967295'], 'unsignedLong': ['0', '18446744073709551615'],
     'duration': ['P1Y2M3DT4H5M6S', 'PT0S', 'P1D', '-P1D', 'PT1.5S'],
 }
 
